@@ -161,11 +161,49 @@ class NgapCanon(NgapRT):
         return None
 
 
+class GoldenCanon(NgapCanon):
+    """canonical encodings of values over the frozen TS 38.413 types; the decoded Go value is read back by field name"""
+    name = "golden-canon"
+    model_check = None
+    spec_check = None
+    model_out = None
+
+    def generate(self, rng, tier):
+        search = getattr(self, "search", False)
+        cases, self.skipped = A.golden_cases(self.S, rng, 12 if search else 1 if tier == "quick" else 4,
+                                             40 if search else 2 if tier == "quick" else 8)
+        for c in cases: c["hex"] = c["expect"]
+        return cases
+
+    def go_case(self, c):
+        return {"root": c["root"], "hex": c["hex"], "re": True, "gvalue": c["gvalue"]}
+
+    def from_replay(self, c):
+        return dict(c, msg=c["root"], value=None)
+
+    def direct_check(self, c, o):
+        if 'panic' in o: return "decoder panicked on a canonical encoding"
+        if 'err' in o: return "canonical encoding rejected: " + o['err']
+        Gs = A.GoldenSchema.get()
+        try: back = A.remap(self.S, Gs, Gs.root[c["root"]]['Type'], o['value'])
+        except (A.NoValue, Exception): return None        # the current types cannot be read by the frozen names here
+        if not A.same_value(back, c['gvalue']): return "canonical encoding decodes to a different value (fields read by name over the TS 38.413 types)"
+        if o.get('re') != c['hex']: return "re-encoding differs from the canonical encoding"
+        return None
+
+    def known(self, c, o):
+        try:
+            if c.get("value") is None:
+                c = dict(c, value=A.remap(A.GoldenSchema.get(), self.S, self.S.root[c["root"]]['Type'], c["gvalue"]))
+            return NgapCanon.known(self, c, o)
+        except Exception: return None
+
+
 class C04(A.AperCheck):
     pid = "C04"
     prop_files = ["Properties/C04.v"]
     extra_targets = ["Model/AperCheck.vo", "Spec/X691Check.vo"]
-    streams = [PrimDec(), NgapRT(), NgapCanon()]
+    streams = [PrimDec(), NgapRT(), NgapCanon(), GoldenCanon()]
     trusted = ["Coq 8.16.1 kernel incl. vm_compute (no native_compute); no axioms (Print Assumptions: closed under the global context)",
                "hand-written models Model/AperEnc.v, Model/AperDec.v (marshal.go / aper.go) tied by the correspondence streams: implementation == model on every case, incl. error identity and panics",
                "Go slices modelled with capacity == length (the harness hands exact-capacity slices to the codec)",
